@@ -558,7 +558,42 @@ def gen_style(i):
     return p.build(), intent, tags
 
 
-FAMILIES = [("enc", len(PAYLOADS), gen_enc), ("shared", N_SHARED, gen_shared), ("shared-edge", len(EDGE_CASES), gen_shared_edge), ("attr", N_ATTR, gen_attr), ("opt", len(OPT_CASES), gen_opt), ("style", len(STYLE_CASES), gen_style)]
+def indent_xml(xml):
+    """Pretty-print: put a line break + blanks between adjacent tags, except right after the start tag of a
+    text-bearing element (<t>, <v>, <f>), where white space would be content."""
+    import re
+    out = []
+    pos = 0
+    for m in re.finditer(r"><", xml):
+        i = m.start()
+        # find the tag that ends at i
+        j = xml.rfind("<", 0, i + 1)
+        tag = xml[j:i + 1]
+        text_start = re.match(r"<(t|v|f)(\s[^>]*)?>$", tag) is not None and not tag.endswith("/>")
+        out.append(xml[pos:i + 1])
+        if not text_start:
+            out.append("\n    ")
+        pos = i + 1
+    out.append(xml[pos:])
+    return "".join(out)
+
+
+def gen_enc_indented(pi):
+    """same content as gen_enc, but the sheet part and the shared strings part are pretty-printed"""
+    data, intent, tags = gen_enc(pi)
+    zin = zipfile.ZipFile(io.BytesIO(data))
+    buf = io.BytesIO()
+    zout = zipfile.ZipFile(buf, "w", zipfile.ZIP_DEFLATED)
+    for item in zin.infolist():
+        raw = zin.read(item.filename)
+        if item.filename.startswith("xl/worksheets/") or item.filename == "xl/sharedStrings.xml":
+            raw = indent_xml(raw.decode("utf-8")).encode("utf-8")
+        zout.writestr(item.filename, raw)
+    zout.close()
+    return buf.getvalue(), intent, ["enc", "indented"] + [t for t in tags if t.startswith("payload:")]
+
+
+FAMILIES = [("enc", len(PAYLOADS), gen_enc), ("enc-indented", len(PAYLOADS), gen_enc_indented), ("shared", N_SHARED, gen_shared), ("shared-edge", len(EDGE_CASES), gen_shared_edge), ("attr", N_ATTR, gen_attr), ("opt", len(OPT_CASES), gen_opt), ("style", len(STYLE_CASES), gen_style)]
 
 
 def total():
